@@ -218,11 +218,11 @@ Section Names.
     dict_of (map (fun tg => (tag_attr (fst tg),
                              (k_Mock ++ class_of tag_class (fst tg), map (fun o => method_name (o_id o)) (snd tg))))
                  (mock_groups e)).
-  (* MockAPIClient's tag properties; None = mock_client.py does not compile/import: no tag at all
-     (empty-bodied __init__), a repeated module name (duplicate argument) or a non-identifier *)
+  (* MockAPIClient's tag properties; None = mock_client.py does not compile/import: a repeated module
+     name (duplicate argument) or a non-identifier (no tag at all: __init__ body is `pass`, fix of F01e) *)
   Definition mock_props (l : list op) : option (list str) :=
     let mods := map (fun tg => tag_attr (fst tg)) (mock_groups (emitted_ops method_name l)) in
-    if is_nil mods || negb (nodupb mods) || negb (forallb py_ident mods) then None else Some mods.
+    if negb (nodupb mods) || negb (forallb py_ident mods) then None else Some mods.
   Definition client_props (l : list op) : option (list str) :=
     match props method_name tag_key tag_attr tag_class score py_ident l with
     | Some p => Some (map fst p)
@@ -240,5 +240,4 @@ Section Names.
   Definition guard_F13b (l : list op) : bool :=                                                   (* tags_spelled_uniformly *)
     let ts := map first_tag l in
     forallb (fun a => forallb (fun b => negb (str_eqb (tag_key a) (tag_key b)) || str_eqb a b) ts) ts.
-  Definition guard_F01e (l : list op) : bool := negb (is_nil l).
 End Names.
